@@ -478,6 +478,18 @@ example : attrOk ⟨"a::::b", []⟩ = true ∧ dirRT "a::::b" = false ∧ attrOk
 example : argTok "x" = .ident ['x'] ∧ argTok "a b" = .strLit ['a', ' ', 'b'] ∧ argTok "struct" = .strLit "struct".toList ∧
     argOf (argTok "a\"b\\") = some "a\"b\\" := by decide
 
+
+/-- the keywords of the Slice language (specification; alphabetical) -/
+def specKeywords : List String := ["Dictionary", "Result", "Sequence", "bool", "compact", "custom", "enum", "float32", "float64", "idempotent", "int16", "int32", "int64", "int8", "interface", "module", "stream", "string", "struct", "tag", "typealias", "uint16", "uint32", "uint64", "uint8", "unchecked", "varint32", "varint62", "varuint32", "varuint62"]
+
+/-- **The keyword table of the lexer is the language's**, as a set (the order of the arms of `check_if_keyword` is free): the model
+    and the printer take the keywords from the table the translator extracts; this pins the table, so that a keyword dropped from or
+    added to the lexer re-opens this proof instead of being followed silently by the model. -/
+theorem keyword_table_as_specified :
+    (Gen.sliceKeywords.map (·.1)).all specKeywords.contains = true ∧
+    specKeywords.all (Gen.sliceKeywords.map (·.1)).contains = true ∧ (Gen.sliceKeywords.map (·.1)).Nodup := by
+  decide
+
 end Slicec.C02
 
 #print axioms Slicec.C02.unescape_escape
@@ -515,3 +527,4 @@ end Slicec.C02
 #print axioms Slicec.C02.integer_literals_read_back
 #print axioms Slicec.C02.directives_read_back
 #print axioms Slicec.C02.names_read_back
+#print axioms Slicec.C02.keyword_table_as_specified
